@@ -46,11 +46,14 @@ BORROW = {
     # history independence: operands are split (and their pieces cleaned) in place by the operators
     # ... and == must not see the subdivision they leave behind (R07.8: curves with redundant vertices)
     # ... nor may an area depend on how a boundary was subdivided (exact quadrature: R04.4)
-    "C10": [("C01", "r01_13"), ("C15", "r15_1"), ("C15", "r15_5"), ("C07", "r07_8"), ("C04", "r04_4")] + CLEAN + CHAIN,
+    # ... after a first operator the crossings of the same operands sit at vertices: the containment shortcut and the
+    # line solver must treat a crossing at a segment end like any other
+    "C10": [("C01", "r01_13"), ("C15", "r15_1"), ("C15", "r15_5"), ("C07", "r07_8"), ("C04", "r04_4"), ("C03", "r03_4"),
+            ("C14", "r14_3"), ("C14", "r14_2")] + CLEAN + CHAIN,
     "C14": [("C07", "r07_11"), ("C18", "r18_13")] + ALGEBRA,
     # the complement of a shape integrates the reversed boundary: reversal must be exact for every degree
     # ... and the exact rational moments need exact quadrature points (no intermediate point rounded to the cap)
-    "C04": ALGEBRA + [("C18", "r18_13"), ("C05", "r05_2"), ("C13", "r13_3")],
+    "C04": ALGEBRA + [("C18", "r18_13"), ("C05", "r05_2"), ("C13", "r13_3"), ("C18", "r18_7")],   # ... on exact rational nodes
     "C09": ALGEBRA,
     # the containment of two simple shapes answers through an axis-aligned shortcut (disjoint boxes) or through the
     # general branch, depending on how the drawing is turned: the two must agree (rows with / without box overlap)
@@ -59,16 +62,17 @@ BORROW = {
     # a memo table shared by every curve is state too: a value stored before it is complete (or changed after it was
     # stored) survives an interruption for the rest of the process (R10.2: memoised values are never mutated)
     "C11": [("C10", "r10_2")],
-    "C12": ALGEBRA + [("C03", "r03_1"), ("C09", "r09_1"), ("C09", "r09_2"), ("C09", "r09_3"), ("C09", "r09_4"), ("C04", "r04_4")],
+    # ... and a rotated / scaled drawing has crossings whose coordinates agree on the two curves up to rounding only
+    "C12": ALGEBRA + [("C01", "r01_7"), ("C03", "r03_1"), ("C09", "r09_1"), ("C09", "r09_2"), ("C09", "r09_3"), ("C09", "r09_4"), ("C04", "r04_4")],
     # every constructor ends in the segments setter, which degree-reduces each segment (BezierCurve.clean)
-    "C17": [("C13", "r13_4"), ("C18", "r18_13"), ("C15", "r15_2"), ("C15", "r15_3")],   # == of two descriptions unites pieces
+    "C17": [("C13", "r13_4"), ("C18", "r18_13"), ("C15", "r15_2"), ("C15", "r15_3"), ("C07", "r07_12"), ("C07", "r07_8"), ("C07", "r07_11")],   # == of two descriptions unites pieces
     # ... evaluated exactly for rational data: no intermediate point of the Horner scheme is rounded to the cap
     "C18": ALGEBRA + [("C13", "r13_3")],
     # exact crossing parameters come from the exact line solver; they become exact vertices only if the split addresses
     # the segment they were computed on and cuts it at them
     # ... and the exact moments are the Green sums of R04.1 / R04.2
     "C13": [("C14", "r14_3"), ("C14", "r14_5"), ("C15", "r15_4"), ("C15", "r15_5"), ("C18", "r18_10"), ("C04", "r04_1"),
-            ("C04", "r04_2"), ("C09", "r09_1"), ("C09", "r09_2"), ("C09", "r09_3")],      # ... exact transformed coordinates
+            ("C04", "r04_2"), ("C09", "r09_1"), ("C09", "r09_2"), ("C09", "r09_3"), ("C18", "r18_7")],      # ... exact transformed coordinates
     # factories build their curve through from_vertices / the segments setter
     # the pieces of a split are cut by the segment-level splitters
     "C15": [("C18", "r18_10")],
